@@ -51,7 +51,9 @@ class SpecMixin:
             body = self.truth(s2, self.ev1(s2, a[1]))
             return B(qforall([kv], z3.Implies(z3.And(key_trig(kv), Val.is_StrV(kv)), body), patterns=[key_trig(kv)]))
         if f == "isregular":
-            return B(self.fk(st, Val.p(v(a[0]).t)) == 1)
+            return B(self.fk(st, vp(v(a[0]).t)) == 1)
+        if f == "isabsent":
+            return B(self.fk(st, vp(v(a[0]).t)) == 0)
         if f == "forall_keys":     # forall_keys(d, k, P): P for every key k of dict d
             d = v(a[0]); kname = a[1].id
             kv = fresh_val("qk_" + kname)
@@ -82,19 +84,28 @@ class SpecMixin:
         if f in ("forall", "exists"):
             # forall(k, lo, hi, P)
             kname = a[0].id
-            lo, hi = Val.i(v(a[1]).t), Val.i(v(a[2]).t)
+            lo, hi = vi(v(a[1]).t), vi(v(a[2]).t)
             kv = fresh_int("q_" + kname)
             s2 = st.copy(); s2.env = dict(st.env); s2.env[kname] = V(IntV(kv), "int")
             body = self.truth(s2, self.ev1(s2, a[3]))
             rng = z3.And(lo <= kv, kv < hi)
             if f == "forall":
+                # trigger: the sequence accesses indexed by the bound variable (seq.nth terms), when there are any
+                pats, todo, seen = [], [body], set()
+                while todo:
+                    x = todo.pop()
+                    if x.get_id() in seen: continue
+                    seen.add(x.get_id())
+                    if z3.is_app(x) and x.decl().kind() == z3.Z3_OP_SEQ_NTH and x.arg(1).eq(kv):
+                        pats.append(x)
+                    todo.extend(x.children())
                 return B(qforall([kv], z3.Implies(rng, body)))
             return B(z3.Exists([kv], z3.And(rng, body)))
         if f == "elems":
             x = v(a[0])
             return [Res(st, x)]
         if f == "at":             # at(seq, k[, type])
-            x = v(a[0]); k = Val.i(v(a[1]).t)
+            x = v(a[0]); k = vi(v(a[1]).t)
             ty = (a[2].id if isinstance(a[2], ast.Name) else a[2].value) if len(a) > 2 else elem_type(x.ty)
             seq = self.dkeys(st, x) if base_type(x.ty) == "dict" else self.elems(st, x)
             return [Res(st, V(seq[k], ty))]
@@ -139,13 +150,13 @@ class SpecMixin:
             x = v(a[0])
             if self._fresh_range is not None:      # assumed postcondition of a callee: allocated during that call
                 lo, hi = self._fresh_range
-                return B(z3.And(Val.is_RefV(x.t), Val.r(x.t) >= lo, Val.r(x.t) < hi))
-            return B(z3.And(Val.is_RefV(x.t), Val.r(x.t) >= self.frontier))
+                return B(z3.And(Val.is_RefV(x.t), vr(x.t) >= lo, vr(x.t) < hi))
+            return B(z3.And(Val.is_RefV(x.t), vr(x.t) >= self.frontier))
         if f in ("isfile", "isdir", "issymlink", "exists_path"):
-            p = Val.p(v(a[0]).t)
+            p = vp(v(a[0]).t)
             return B(self.fs_pred(st, f, p))
         if f == "fs_text":
-            p = Val.p(v(a[0]).t)
+            p = vp(v(a[0]).t)
             return [Res(st, V(StrV(z3.Select(st.field("$fs_text"), p)), "str"))]
         if f == "effect_before":     # no occurrence of effect a after an occurrence of effect b
             na, nb = a[0].value, a[1].value
@@ -166,7 +177,7 @@ class SpecMixin:
                 cur = V(z3.If(e.g(), x.t, cur.t), x.ty)
             return [Res(st, cur)]
         if f == "fs_read":          # text obtained by read_text (follows one level of symlink)
-            p = Val.p(v(a[0]).t)
+            p = vp(v(a[0]).t)
             q = z3.If(self.fk(st, p) == 3, self.ftarget(st, p), p)
             return [Res(st, V(StrV(z3.Select(st.field("$fs_text"), q)), "str"))]
         if f == "effect_result" or f == "effect_arg":
@@ -189,9 +200,9 @@ class SpecMixin:
             return [Res(st, V(bm(v(a[0]).t), None))]
         if f == "p_joinp":          # p / q for two paths
             x, y = v(a[0]), v(a[1])
-            return [Res(st, V(Val.PathV(p_joinp(Val.p(x.t), Val.p(y.t))), "Path"))]
+            return [Res(st, V(Val.PathV(p_joinp(vp(x.t), vp(y.t))), "Path"))]
         if f == "parses_int":
-            return B(is_intstr(Val.s(v(a[0]).t)))
+            return B(is_intstr(vs(v(a[0]).t)))
         if f in ("effect", "no_effect", "effect_count"):
             name = a[0].value
             if any(name in e.inner for e in st.trace):
@@ -216,16 +227,16 @@ class SpecMixin:
             elif cls == "float": alts.append(Val.is_FloatV(t))
             elif cls == "bytes": alts.append(Val.is_BytesV(t))
             elif cls in ("Path", "PosixPath", "PurePath"): alts.append(Val.is_PathV(t))
-            elif cls in ("list", "List"): alts.append(z3.And(Val.is_RefV(t), st.read("$class", Val.r(t)) == self.reg.classtag("list")))
-            elif cls in ("dict", "set", "tuple"): alts.append(z3.And(Val.is_RefV(t), st.read("$class", Val.r(t)) == self.reg.classtag(cls)))
+            elif cls in ("list", "List"): alts.append(z3.And(Val.is_RefV(t), st.read("$class", vr(t)) == self.reg.classtag("list")))
+            elif cls in ("dict", "set", "tuple"): alts.append(z3.And(Val.is_RefV(t), st.read("$class", vr(t)) == self.reg.classtag(cls)))
             elif cls == "Enum":
                 tags = [self.reg.classtag(e) for e in self.reg.enums]
-                alts.append(z3.And(Val.is_RefV(t), z3.Or(*[st.read("$class", Val.r(t)) == g for g in tags])) if tags else z3.BoolVal(False))
+                alts.append(z3.And(Val.is_RefV(t), z3.Or(*[st.read("$class", vr(t)) == g for g in tags])) if tags else z3.BoolVal(False))
             else:
                 subs = self.reg.subclasses(cls)
                 # static type known and a subclass: trivially true
                 if x.ty and base_type(x.ty) in subs and base_type(x.ty) in self.reg.classes and not (x.ty or "").startswith("opt:"):
                     alts.append(Val.is_RefV(t))
                 else:
-                    alts.append(z3.And(Val.is_RefV(t), z3.Or(*[st.read("$class", Val.r(t)) == self.reg.classtag(s) for s in subs])))
+                    alts.append(z3.And(Val.is_RefV(t), z3.Or(*[st.read("$class", vr(t)) == self.reg.classtag(s) for s in subs])))
         return z3.Or(*alts) if len(alts) != 1 else alts[0]
